@@ -484,6 +484,8 @@ func (a Atom) String() string {
 		return neg + "len" + a.Name
 	case "hasprefix":
 		return neg + "hasprefix"
+	case "inset":
+		return neg + "in(" + a.Name + ")"
 	case "or":
 		var ps []string
 		for _, x := range a.Or {
@@ -543,6 +545,16 @@ func (p *Prov) atomOf(cond ssa.Value, pol bool) Atom {
 		}
 		if k == "strings.HasPrefix" {
 			return Atom{Kind: "hasprefix", Pol: pol, X: x.Call.Args[0], Name: "HasPrefix", Src: cond}
+		}
+		// membership of a key in a constant string set of the package: slices.Contains(Set, key)
+		if strings.HasPrefix(k, "slices.Contains") && len(x.Call.Args) == 2 {
+			if ld, ok := x.Call.Args[0].(*ssa.UnOp); ok {
+				if g, ok := ld.X.(*ssa.Global); ok && g.Pkg == p.c.SPkg {
+					if _, isSet := p.Tables.StringSets[g.Name()]; isSet {
+						return Atom{Kind: "inset", Pol: pol, Name: g.Name(), X: x.Call.Args[1], Src: cond}
+					}
+				}
+			}
 		}
 		return Atom{Kind: "other", Pol: pol, Name: "call " + shortKey(k), Src: cond}
 	case *ssa.BinOp:
@@ -862,6 +874,25 @@ func (p *Prov) justify(s *Sink) string {
 	// J3
 	if tbl("Namespace") {
 		return "J3:tbl==Namespace"
+	}
+	// J3 (short form): the KEY is a member of a reviewed constant set of namespace-bearing
+	// stages and the value is a string - {$out: "coll"}, {$unionWith: "coll"}, {$merge: "coll"}
+	if has(func(a Atom) bool {
+		if a.Kind != "inset" || !a.Pol || p.Of(a.X)&oKEY == 0 {
+			return false
+		}
+		pol, err := loadTablePolicy()
+		if err != nil {
+			return false
+		}
+		for _, m := range p.Tables.StringSets[a.Name] {
+			if _, ok := pol.NamespaceStageAllow[m]; !ok {
+				return false
+			}
+		}
+		return len(p.Tables.StringSets[a.Name]) > 0
+	}) && (isStringType(peel(v).Type()) || has(func(a Atom) bool { return a.Kind == "typeis" && a.Pol && isStringType(a.Type) && sameSubject(a.X) })) {
+		return "J3:namespace-stage-shorthand"
 	}
 	// J2: field-name position holding a string, or anything that is not a document
 	// (field paths, arrays of field paths; documents are expressions and must be walked)
